@@ -89,6 +89,7 @@ type runner struct {
 	shrinkBudget time.Duration
 	shrinkSpent  time.Duration
 	mu           sync.Mutex
+	kcount       map[string]int
 	groups       []failing // failing units of the main stream, handled after the known stream
 }
 
@@ -194,9 +195,13 @@ func (r *runner) handle(s *subject, f finding, origin, known string) {
 	r.mu.Unlock()
 }
 
+// count is safe to call from the goroutines of the known stream (vl.Out is not): merged into the stats at the end.
 func (r *runner) count(k string) {
 	r.mu.Lock()
-	r.out.Count(k)
+	if r.kcount == nil {
+		r.kcount = map[string]int{}
+	}
+	r.kcount[k]++
 	r.mu.Unlock()
 }
 
@@ -238,7 +243,7 @@ func (r *runner) finalize() {
 			continue
 		}
 		// the minimal input is not confirmed by the toolchain: fall back to the original input
-		r.out.Count("shrink.unconfirmed")
+		r.count("shrink.unconfirmed")
 		fmt.Printf("c01: minimal input of %s not confirmed by the toolchain (%s): reporting the original input\n", c.v.Head, orStr(ff.head(), "ok"))
 		c.v.Subject, c.v.Kept, c.v.Shrunk = c.v.orig, nil, false
 		res := r.chk.run(c.v.Subject.raw(), false)
@@ -256,7 +261,7 @@ func (r *runner) finalize() {
 			ff := judge(c.res.Exit, c.res.Stderr, c.res.ParseErrs, b2[c.res.Dir])
 			if !ff.violation() {
 				// only the in-process check saw a problem: not a verdict of the toolchain, not reported
-				r.out.Count("finding.not-confirmed-at-all")
+				r.count("finding.not-confirmed-at-all")
 				c.v.Key = ""
 				continue
 			}
@@ -278,7 +283,7 @@ func (r *runner) finalize() {
 			} else if v.Known != "" && !strings.Contains(old.Known, v.Known) {
 				old.Known += "," + v.Known
 			}
-			r.out.Count("violation.duplicate-key")
+			r.count("violation.duplicate-key")
 			continue
 		}
 		r.byKey[v.Key] = v
@@ -356,7 +361,59 @@ func run(repo, dir string, seed uint64, tier string, knownOnly bool, only string
 		r.shrinkBudget = 6 * time.Minute
 	}
 
-	// ---------------- 1. generated programs: one shared batch, real toolchain
+	// ---------------- 1. dedicated known-defect stream, concurrently with the batch of the main stream
+	// (in-process generator workers; one shrink per unit). The checker is handed over through chkReady.
+	chkReady := make(chan *checker, 1)
+	knownDone := make(chan error, 1)
+	go func() {
+		cr := <-chkCh
+		if cr.err != nil {
+			chkReady <- nil
+			knownDone <- cr.err
+			return
+		}
+		chk := cr.c
+		self, _ := os.Executable()
+		chk.startWorkers(self, 6)
+		r.mu.Lock()
+		r.chk = chk
+		r.mu.Unlock()
+		chkReady <- chk
+		t1 := time.Now()
+		var wg sync.WaitGroup
+		for _, k := range knownUnits() {
+			if only != "" && k.ID != only {
+				continue
+			}
+			wg.Add(1)
+			go func(k knownUnit) {
+				defer wg.Done()
+				res := chk.runFast(k.Subject.raw())
+				f := judge(res.Exit, res.Stderr, res.ParseErrs, res.TypeErrs)
+				chk.cleanup(res)
+				r.count("known." + k.ID + "." + orStr(f.head(), "pass"))
+				if f.violation() {
+					r.handle(k.Subject, f, "known:"+k.ID, k.ID)
+				} else {
+					// a candidate that does not fail on this tree (fixed, or not a compile problem)
+					r.count("known.not-failing")
+					if k.Expect == "fail" {
+						fmt.Printf("c01: known unit %s does not fail on this tree (%s)\n", k.ID, orStr(f.head(), "ok"))
+					}
+				}
+			}(k)
+		}
+		wg.Wait()
+		r.mu.Lock()
+		if r.kcount == nil {
+			r.kcount = map[string]int{}
+		}
+		r.kcount["timing_ms.known"] = int(time.Since(t1).Milliseconds())
+		r.mu.Unlock()
+		knownDone <- nil
+	}()
+
+	// ---------------- 2. generated programs: one shared batch, real toolchain
 	if !knownOnly {
 		t1 := time.Now()
 		if rc := r.mainStream(nprog); rc != 0 {
@@ -364,44 +421,13 @@ func run(repo, dir string, seed uint64, tier string, knownOnly bool, only string
 		}
 		out.Stats["timing_ms.main_stream"] = int(time.Since(t1).Milliseconds())
 	}
-	cr := <-chkCh
-	if cr.err != nil {
-		fmt.Println("ERROR:", cr.err)
+	chk := <-chkReady
+	if err := <-knownDone; err != nil || chk == nil {
+		fmt.Println("ERROR:", err)
 		return 2
 	}
-	chk := cr.c
-	r.chk = chk
-	self, _ := os.Executable()
-	chk.startWorkers(self, 6)
 	defer chk.stopWorkers()
-
-	// ---------------- 2. dedicated known-defect stream (parallel: one shrink per unit)
-	t1 := time.Now()
-	var wg sync.WaitGroup
-	for _, k := range knownUnits() {
-		if only != "" && k.ID != only {
-			continue
-		}
-		wg.Add(1)
-		go func(k knownUnit) {
-			defer wg.Done()
-			res := chk.runFast(k.Subject.raw())
-			f := judge(res.Exit, res.Stderr, res.ParseErrs, res.TypeErrs)
-			chk.cleanup(res)
-			r.count("known." + k.ID + "." + orStr(f.head(), "pass"))
-			if f.violation() {
-				r.handle(k.Subject, f, "known:"+k.ID, k.ID)
-			} else {
-				// a candidate that does not fail on this tree (fixed, or not a compile problem)
-				r.count("known.not-failing")
-				if k.Expect == "fail" {
-					fmt.Printf("c01: known unit %s does not fail on this tree (%s)\n", k.ID, orStr(f.head(), "ok"))
-				}
-			}
-		}(k)
-	}
-	wg.Wait()
-	out.Stats["timing_ms.known"] = int(time.Since(t1).Milliseconds())
+	var t1 time.Time
 
 	// ---------------- 3. failing units of the main stream, then the switch stream
 	if !knownOnly {
@@ -418,7 +444,13 @@ func run(repo, dir string, seed uint64, tier string, knownOnly bool, only string
 	t2 := time.Now()
 	r.finalize()
 	out.Stats["timing_ms.confirm"] = int(time.Since(t2).Milliseconds())
-	sort.Slice(r.viols, func(i, j int) bool { return r.viols[i].Key < r.viols[j].Key })
+	// what no dedicated unit shows comes first (bin/check writes replays for the first 20 only)
+	sort.Slice(r.viols, func(i, j int) bool {
+		if (r.viols[i].Known == "") != (r.viols[j].Known == "") {
+			return r.viols[i].Known == ""
+		}
+		return r.viols[i].Key < r.viols[j].Key
+	})
 	for _, v := range r.viols {
 		text := renderText(v.Subject.Prog)
 		fmt.Printf("FAILING INPUT key=%s%s\n  cmd: %s\n  observed: %s\n%s\n", v.Key, orStr(" ("+v.Known+")", ""), v.Subject.raw().cmdline(),
@@ -431,6 +463,9 @@ func run(repo, dir string, seed uint64, tier string, knownOnly bool, only string
 			Expected: "thriftgo exits 0 and every written .go file parses and all generated packages type-check (or thriftgo refuses the input with a diagnostic)",
 			Observed: v.Observed})
 		out.Sample(map[string]interface{}{"key": v.Key, "cmd": v.Subject.raw().cmdline(), "idl": text})
+	}
+	for k, v := range r.kcount {
+		out.Stats[k] += v
 	}
 	out.Stats["checker.runs"] = chk.Runs
 	out.Stats["checker.runs_in_process"] = chk.FastRuns
@@ -521,6 +556,15 @@ func (r *runner) mainStream(nprog int) int {
 			plan = append(plan, plannedUnit{p, "go", o, rec, fmt.Sprintf("prog%d", i)})
 		}
 	}
+	// two fixed programs that exercise paths random programs rarely reach: MustReserve refusing `Foo` + `NewFoo`
+	// (the model must predict the rejection), and heavy renaming inside one struct / one service
+	plan = append(plan,
+		plannedUnit{&Program{Files: []*File{mkFile("a.thrift", "pa", none, strct("Foo", fd(1, "a", i32)), strct("NewFoo", fd(1, "b", i32)))}}, "go", nil, true, "fixed-reserve"},
+		plannedUnit{&Program{Files: []*File{mkFile("a.thrift", "pa", none,
+			strct("read", fd(1, "read", i32), fd(2, "Read", i32), fd(3, "get_read", i32), fdOpt(4, "GetRead", i32), fd(5, "read_field1", i32), fd(-1, "write_field_1", i32)),
+			svc("Svc", nil, fnVoid("f", []*idlgen.Field{fd(1, "p", i32), fd(2, "P", i32), fd(3, "err", i32), fd(4, "type", i32), fd(5, "_type", i32), fd(6, "ctx", i32)}, nil),
+				&idlgen.Function{Name: "g", Ret: i32, Args: []*idlgen.Field{fd(1, "r", i32), fd(2, "_result", i32), fd(3, "R", i32)}}),
+			svc("Svc2", nil, fnVoid("f", nil, nil)))}}, "go", []string{"gen_setter", "gen_deep_equal", "keep_unknown_fields"}, true, "fixed-renames"})
 	units := make([]batch.Unit, len(plan))
 	for i, pu := range plan {
 		units[i] = batch.Unit{Prog: pu.prog, Backend: pu.backend, Options: pu.opts, Recurse: pu.recurse, Tag: pu.tag}
@@ -619,6 +663,18 @@ func (r *runner) mainStream(nprog int) int {
 		}
 		out.Count("unit.failing")
 	}
+	// what each unit was, for turning a model/implementation disagreement into a concrete input (checks/c01.py)
+	uj := map[string]interface{}{}
+	for i := range b.Units {
+		u := &b.Units[i]
+		pu := plan[i]
+		s := &subject{Prog: pu.prog, Backend: pu.backend, Options: pu.opts, Recurse: pu.recurse}
+		uj[u.Key] = map[string]interface{}{"cmd": s.raw().cmdline(), "files": pu.prog.Render(), "main": pu.prog.Files[0].Path,
+			"backend": u.Backend, "options": u.Options, "recurse": pu.recurse, "idl": renderText(pu.prog), "tag": pu.tag}
+	}
+	if bs, err := json.Marshal(uj); err == nil {
+		os.WriteFile(filepath.Join(r.out.Dir, "units.json"), bs, 0o644)
+	}
 	var gks []string
 	for k := range groups {
 		gks = append(gks, k)
@@ -680,7 +736,7 @@ func (r *runner) switchStream() {
 			res := r.chk.runFast(sub.raw())
 			f := judge(res.Exit, res.Stderr, res.ParseErrs, res.TypeErrs)
 			r.chk.cleanup(res)
-			r.out.Count("switch." + s.Name + "." + orStr(f.head(), "ok"))
+			r.count("switch." + s.Name + "." + orStr(f.head(), "ok"))
 			if f.violation() && !found[f.head()] {
 				found[f.head()] = true
 				r.handle(sub, f, "switch:"+s.Name, "")
@@ -719,8 +775,8 @@ func (r *runner) noRecurseStream() {
 		res := r.chk.runFast(sub.raw())
 		f := judge(res.Exit, res.Stderr, res.ParseErrs, res.TypeErrs)
 		r.chk.cleanup(res)
-		r.out.Count("norecurse." + orStr(f.head(), "ok"))
-		r.out.Count(fmt.Sprintf("norecurse.files.%d", len(p.Files)))
+		r.count("norecurse." + orStr(f.head(), "ok"))
+		r.count(fmt.Sprintf("norecurse.files.%d", len(p.Files)))
 		if f.violation() && !seen[f.head()+strings.Join(opts, ",")] {
 			seen[f.head()+strings.Join(opts, ",")] = true
 			r.handle(sub, f, "norecurse", "")
